@@ -113,7 +113,98 @@ def gen_C02(tier, seed, unit, nunits):
                 out.append(req('abs', s, n, f, a))
     return {'arith': out}
 
+ROUND_OPS = ['int', 'frac', 'round_to_zero'] + [fm + m for m in ('ceil', 'floor', 'round', 'round_ties_to_even')
+                                                for fm in ('', 'checked_', 'saturating_', 'wrapping_', 'overflowing_')]
+def gen_C06(tier, seed, unit, nunits):
+    out = G.corpus('C06') if unit == 0 else []
+    for (s, n, f) in unit_layouts(G.typed_layouts(tier), unit, nunits):
+        rng = random.Random(f'{seed}/C06/{s}/{n}/{f}')
+        lo, hi = G.rng_range(s, n)
+        E = G.edges(s, n, f)
+        if n == 8 or (n == 16 and tier != 'quick'):
+            vals = range(lo, hi + 1)
+        else:
+            one = 1 << f; half = one >> 1
+            vals = set(E)
+            for _ in range(scale(tier, 400, 20000)):
+                r = rng.random()
+                if r < 0.5:
+                    # integers, half-integers and their neighbours: q*one + {0, half} + {-1,0,1}
+                    q = rng.choice([rng.randint(-4, 4), (lo >> f) + rng.randint(0, 2), (hi >> f) - rng.randint(0, 2), rng.randint(lo >> f, hi >> f)])
+                    vals.add(G.clip(s, n, q * one + rng.choice([0, half, one - 1, 1]) + rng.randint(-1, 1)))
+                else:
+                    vals.add(G.rand_val(rng, s, n, f, E))
+            vals = sorted(vals)
+        for a in vals:
+            for op in ROUND_OPS:
+                out.append(req(op, s, n, f, a))
+    return {'arith': out}
+
+REM_FIXED = ['rem', 'checked_rem', 'rem_euclid', 'checked_rem_euclid', 'div_euclid', 'checked_div_euclid',
+             'saturating_div_euclid', 'wrapping_div_euclid', 'overflowing_div_euclid']
+REM_INT = ['rem_int', 'checked_rem_int', 'rem_euclid_int', 'checked_rem_euclid_int', 'wrapping_rem_euclid_int',
+           'overflowing_rem_euclid_int', 'div_euclid_int', 'checked_div_euclid_int', 'wrapping_div_euclid_int',
+           'overflowing_div_euclid_int']
+def gen_C07(tier, seed, unit, nunits):
+    out = G.corpus('C07') if unit == 0 else []
+    for (s, n, f) in unit_layouts(G.typed_layouts(tier), unit, nunits):
+        rng = random.Random(f'{seed}/C07/{s}/{n}/{f}')
+        lo, hi = G.rng_range(s, n)
+        E = G.edges(s, n, f)
+        C = G.crit(s, n, f)
+        one = 1 << f
+        pairs = [(a, b) for a in C for b in C]
+        if n == 8:
+            if tier == 'quick':
+                pairs += [(a, b) for a in E for b in range(lo, hi + 1)] + [(a, b) for a in range(lo, hi + 1) for b in C]
+            else:
+                pairs = [(a, b) for a in range(lo, hi + 1) for b in range(lo, hi + 1)]
+        k = scale(tier, 150, 3000)
+        for _ in range(k):
+            r = rng.random()
+            b = G.rand_val(rng, s, n, f, E)
+            if r < 0.4 and b != 0:
+                # a = q*b + r with chosen Euclidean quotient (value-level integer) near the representable integer range
+                qmax = hi >> f; qmin = lo >> f
+                q = rng.choice([qmax, qmin, qmax + 1, qmin - 1, 0, 1, -1, rng.randint(qmin, qmax)])
+                rr = rng.choice([0, 1, abs(b) - 1, rng.randrange(abs(b))])
+                pairs.append((G.clip(s, n, q * b + rr), b))
+            elif r < 0.6:
+                pairs.append((rng.choice(E), rng.choice(E)))
+            else:
+                pairs.append((G.rand_val(rng, s, n, f, E), b))
+        for a, b in pairs:
+            for op in REM_FIXED:
+                out.append(req(op, s, n, f, a, b))
+        # integer divisors: small, range ends, those whose fixed-point image just fits / just overflows
+        ks = {0, 1, -1, 2, -2, 3, -3, 10, lo, hi, lo + 1, hi - 1}
+        ib = n - f
+        for d in (-1, 0, 1):
+            for sh in (ib - 2, ib - 1, ib):
+                if sh >= 0:
+                    ks.update(((1 << sh) + d, -(1 << sh) + d))
+        ks = sorted({x for x in ks if lo <= x <= hi})
+        ipairs = [(a, kk) for a in C for kk in ks]
+        for _ in range(k):
+            a = G.rand_val(rng, s, n, f, E)
+            r = rng.random()
+            if r < 0.5:
+                kk = rng.choice(ks)
+            elif r < 0.8:
+                kk = G.clip(s, n, (a >> f) + rng.randint(-2, 2)) if rng.random() < 0.5 else G.clip(s, n, rng.randint(-20, 20))
+            else:
+                kk = G.rand_val(rng, s, n, 0, E)
+            ipairs.append((a, kk))
+        if n == 8 and tier != 'quick':
+            ipairs = [(a, kk) for a in range(lo, hi + 1) for kk in range(lo, hi + 1)]
+        for a, kk in ipairs:
+            for op in REM_INT:
+                out.append(req(op, s, n, f, a, kk))
+    return {'arith': out}
+
 PROPS = {
     'C01': dict(lean_modules=['SfxProps.C01'], bins=['arith'], profiles=['chk', 'rel'], gen=gen_C01, thorough_all_fracs=True),
+    'C06': dict(lean_modules=['SfxProps.C06'], bins=['arith'], profiles=['chk', 'rel'], gen=gen_C06, thorough_all_fracs=True),
+    'C07': dict(lean_modules=['SfxProps.C07'], bins=['arith'], profiles=['chk', 'rel'], gen=gen_C07, thorough_all_fracs=True),
     'C02': dict(lean_modules=['SfxProps.C02'], bins=['arith'], profiles=['chk', 'rel'], gen=gen_C02, thorough_all_fracs=True),
 }
